@@ -138,7 +138,10 @@ Section PageLoop.
     | S fuel' =>
       let* it := idx 1003 pm i in
       let* (resume_at, reported, fn', pm', out') :=
-        if (old_pages =? 0) || i_changed it || i_wanted it then
+        (* pages.go 1008-1010; the test `i >= len(pages)` (a page that did not exist in
+           the previous round cannot be up to date) was added to /repo by the fix of the
+           index panic below: [make_all_pages_orig] is the loop without it *)
+        if (old_pages =? 0) || (old_pages <=? i) || i_changed it || i_wanted it then
           (* pages.go 1011: reset remakeState *)
           let pm1 := set_nth pm i (mk_item (i_resume it) (i_brk it) (i_right it) false false) in
           let* (pg, resume_at, fn', pm2) := remake_page i pm1 fn in
@@ -152,6 +155,29 @@ Section PageLoop.
       if is_none resume_at && (reported =? 0) then
         Ok (firstn (i' + 1) pm', out')                      (* pages.go 1026-1031 *)
       else make_all_pages fuel' pm' old_pages fn' i' out'
+    end.
+
+  (* the loop before that fix (unchanged tree): the re-use branch can be entered
+     for a page that does not exist in the previous round *)
+  Fixpoint make_all_pages_orig (fuel : nat) (pm : list item) (old_pages : nat) (fn : nat)
+           (i : nat) (out : list page) : res (list item * list page) :=
+    match fuel with
+    | O => OutOfFuel
+    | S fuel' =>
+      let* it := idx 1003 pm i in
+      let* (resume_at, reported, fn', pm', out') :=
+        if (old_pages =? 0) || i_changed it || i_wanted it then
+          let pm1 := set_nth pm i (mk_item (i_resume it) (i_brk it) (i_right it) false false) in
+          let* (pg, resume_at, fn', pm2) := remake_page i pm1 fn in
+          Ok (resume_at, fn', fn', pm2, out ++ [pg])
+        else
+          let* next := idx 1019 pm (i + 1) in
+          let* _ := (if i <? old_pages then Ok tt else Panic 1021) in
+          Ok (i_resume next, 0, fn, pm, out ++ [PContent]) in
+      let i' := i + 1 in
+      if is_none resume_at && (reported =? 0) then
+        Ok (firstn (i' + 1) pm', out')
+      else make_all_pages_orig fuel' pm' old_pages fn' i' out'
     end.
 
   (* layout.go 138-178.  make_all is one call of makeAllPages (fuel fixed by the
